@@ -616,7 +616,12 @@ class ExcelModel:
         f_nodes, d_nodes, dmap = dsp.function_nodes, dsp.data_nodes, dsp.dmap
         skip_nodes = {
             k for k, node in f_nodes.items()
-            if isinstance(node['function'], InvRangesAssembler)
+            if isinstance(node['function'], InvRangesAssembler) or (
+                node['function'] is sh.bypass and  # Inverse reference.
+                set(node['outputs']).issubset(
+                    d_nodes[node['inputs'][0]].get('inv-data', ())
+                )
+            )
         }
 
         cycles = list(simple_cycles(dmap.succ, skip_nodes=skip_nodes))
